@@ -1,5 +1,7 @@
 import ModVerif.AuditCmd
 import ModVerif.Props.C11
 import ModVerif.Tie.Module
+import ModVerif.Tie.FnModule
 #audit_module ModVerif.Props.C11
 #audit_module ModVerif.Tie.Module
+#audit_module ModVerif.Tie.FnModule
